@@ -7,6 +7,7 @@
 import GoDebian.Model.Deb
 import GoDebian.Spec.Ar
 import GoDebian.Lemmas.ArBuild
+import GoDebian.Lemmas.ArSparse
 
 namespace GoDebian.Props.C13
 open GoDebian GoDebian.Ar GoDebian.Spec.Ar
@@ -84,6 +85,36 @@ example :
     ms.all wfMember = true ∧
     (readAll (build ms)).map (fun r => (r.1.map (Ar.data (build ms)), r.2))
       = some ([B "hey", B "second"], .eof) := by
+  decide +kernel
+
+/-- The iterator does not depend on how the source is stored: over a list of runs (literal
+    bytes, runs of zero bytes) it returns what it returns over the bytes they stand for. -/
+theorem C13_source_independent (segs : List Seg) : readAllS segs = readAll (flatten segs) :=
+  Lemmas.ArSparse.readAllS_eq segs
+
+/-- Members of any size the ten-digit column can hold: an archive given as runs, whose
+    members carry `k` further zero bytes each, reads back as its (materialised) members.
+    `wfMember` allows sizes up to 9999999999. -/
+theorem C13_read_build_large (mks : List (Member × Nat))
+    (h : (mks.map materialise).all wfMember = true) :
+    ∃ es, readAllS (buildSegs mks) = some (es, .eof) ∧
+      es.map (entryView (build (mks.map materialise))) = (mks.map materialise).map view := by
+  rw [C13_source_independent, Lemmas.ArSparse.flatten_buildSegs]
+  exact C13_read_build _ h
+
+/-- a member of 10^9 + 1 bytes (ten digits, odd: a pad byte follows) and one of
+    9999999999 bytes, each followed by a small member: sizes and offsets as computed by
+    the kernel on the runs, without materialising anything -/
+example :
+    let B := Bytes.ofString
+    let big1 : Member × Nat := (⟨B "data.tar", false, some 1, none, none, B "644", B "x"⟩, 1000000000)
+    let big2 : Member × Nat := (⟨B "huge", true, none, none, none, B "644", []⟩, 9999999999)
+    let small : Member × Nat := (⟨B "next", false, some 2, none, none, B "644", B "ab"⟩, 0)
+    (Str.fmtNat 9999999999).length ≤ 10 ∧
+    (readAllS (buildSegs [big1, small, big2, small])).map
+        (fun r => (r.1.map (fun e => (e.name, e.size, e.hdrOff)), r.2))
+      = some ([(B "data.tar", 1000000001, 8), (B "next", 2, 1000000070),
+               (B "huge", 9999999999, 1000000132), (B "next", 2, 11000000192)], .eof) := by
   decide +kernel
 
 end GoDebian.Props.C13
